@@ -147,7 +147,11 @@ class FractionScalar(AbstractValueWithQuantityObject):
             # default category).
             quantity = ObtainQuantity(from_unit)
 
-        convert_to_quantity = ObtainQuantity(from_unit, quantity.GetComposingCategories())
+        if quantity.GetUnit() == from_unit:
+            # (already the quantity of the value: it converts in the unit database it belongs to)
+            convert_to_quantity = quantity
+        else:
+            convert_to_quantity = ObtainQuantity(from_unit, quantity.GetComposingCategories())
         converted_number = convert_to_quantity.ConvertScalarValue(
             fraction_value.GetNumber(), to_unit
         )
